@@ -123,6 +123,7 @@ type Sim struct {
 	finished       atomic.Bool
 	tickers        []*time.Ticker
 	Idles          int
+	inDriver       bool
 	Hazards        []string // un-instrumented blocking detected (tooling trouble, not a verdict)
 	ForcedAdvances int
 	elapsed        time.Duration
@@ -171,7 +172,9 @@ func New(dec *Decider, cfg Config) *Sim {
 // inside a blocking wrapper use the identity they captured before blocking.
 func Cur() *Task {
 	s := active.Load()
-	if s == nil {
+	if s == nil || s.inDriver {
+		// (code the driver itself runs between steps - wait conditions, hooks - is not a task:
+		// instrumented constructs degrade to the bare Go constructs there)
 		return nil
 	}
 	return s.cur
@@ -860,13 +863,17 @@ func (s *Sim) Run(main func()) {
 			return
 		}
 		if s.StepHook != nil {
+			s.inDriver = true
 			s.StepHook()
+			s.inDriver = false
 			if s.stopReq.Load() {
 				return
 			}
 		}
 		now := time.Now()
+		s.inDriver = true
 		cs, nextT, lockw, live := s.candidates(now)
+		s.inDriver = false
 		if len(cs) == 0 && len(lockw) > 0 && idleSpins < 2 {
 			// safety net: a mutex released by un-instrumented code — let the waiters retry once
 			idleSpins++
@@ -941,11 +948,15 @@ func (s *Sim) Run(main func()) {
 			s.mu.Lock()
 			c.ev.cancelled = true
 			s.mu.Unlock()
+			s.inDriver = true
 			c.ev.Fire()
+			s.inDriver = false
 		}
 		if s.AfterStep != nil {
 			synctest.Wait()
+			s.inDriver = true
 			s.AfterStep()
+			s.inDriver = false
 			if s.stopReq.Load() {
 				return
 			}
